@@ -71,6 +71,25 @@ def witness_search(tier, seed):
                     return dict(input=dict(text=text, encoding=enc, try_encodings=encs, out=out, backup=bak), detail="input modified although an output name was given")
                 if open(other, "rb").read() != b"keep" or set(os.listdir(d)) != {"in" + ext, "other.txt"} | ({out} if out else set()) | ({bak} if bak else set()):
                     return dict(input=dict(text=text, encoding=enc, try_encodings=encs, out=out, backup=bak), detail="another file was created or changed")
+        # a large file in a later encoding of the list: an earlier encoding decodes its first chunks (to text the parser would
+        # reject) and fails only further on - the whole file must be decoded before anything is parsed
+        for f in os.listdir(d):
+            os.remove(os.path.join(d, f))
+        big = ("#TITLE:x;\n#NOTES:dance-single:\u30a6\u30bd:Easy:1:0,0,0,0,0:\n0000\n0000\n0000\n0000\n;\n"
+               "#NOTES:dance-single:long:Hard:9:0,0,0,0,0:\n" + "0000\n" * 9000 + ";\n#SUBTITLE:\u3000;\n")
+        p = os.path.join(d, "big.sm")
+        open(p, "wb").write(big.encode("cp932"))
+        try:
+            sfb, encb = simfile.open_with_detected_encoding(p)
+            if encb != "cp932" or sfb.charts[0].description != "\u30a6\u30bd":
+                return dict(input="a 12 KB cp932 .sm file whose chart description ends in a 0x5C trail byte", detail=f"detected {encb}, description {sfb.charts[0].description!r}")
+            with simfile.mutate(p) as sfm:
+                sfm.subtitle = "edited"
+            if open(p, "rb").read().decode("cp932").replace("\r\n", "\n") != str(sfm):
+                return dict(input="the same file through mutate", detail="output is not the edited simfile in cp932")
+        except Exception as e:
+            return dict(input="a 12 KB cp932 .sm file whose chart description ends in a 0x5C trail byte (cp1252 decodes the first 8 KB)",
+                        detail=f"raised {type(e).__name__}: {e} - cp932 is the first listed encoding under which the whole file decodes")
         # the same on an in-memory PyFilesystem: everything happens inside the filesystem that was passed, nothing on disk
         from fs.memoryfs import MemoryFS
         for out, bak in ((None, None), ("out.sm", None), (None, "bak.sm"), ("out.sm", "bak.sm")):
@@ -119,3 +138,8 @@ def witness_search(tier, seed):
         return None
     finally:
         shutil.rmtree(d, ignore_errors=True)
+
+
+# supplier units (see props/suppliers.py): mutate and open rely on the loaders and on the serializers by their contracts
+from props import suppliers as _S   # noqa: E402
+UNITS = _S.extend(UNITS, _S.loaders(), _S.serializers())
